@@ -25,6 +25,7 @@ P07 == INSTANCE P_C07
 P08 == INSTANCE P_C08
 P12 == INSTANCE P_C12
 P13 == INSTANCE P_C13
+P17 == INSTANCE P_C17
 
 \* values for the constants that a .cfg file cannot express (sets of tuples): use  Maxes <- Maxes_2  etc.
 Maxes_none == {<<>>}
@@ -37,7 +38,7 @@ Buf_some == {{B}, {A, B}, {R2}}
 Buf_all == {{}, {A}, {B}, {A, B}, {B, Cc}, {R2}}
 Bit(n, b) == (n \div b) % 2 = 1
 Cfgs == {[allowId |-> Bit(a, 1), allowHier |-> Bit(a, 2), allowSize |-> Bit(a, 4), hasMax |-> mx # <<>>, max |-> mx,
-          buffered |-> bs, eofClose |-> ec] : a \in AllowSets, bs \in BufSets, ec \in EofCloses, mx \in Maxes}
+          buffered |-> bs, eofClose |-> ec, cap0 |-> 16] : a \in AllowSets, bs \in BufSets, ec \in EofCloses, mx \in Maxes}
 Strict(c) == ~c.allowId /\ ~c.allowHier /\ ~c.allowSize
 
 Done == out # <<>> /\ out[Len(out)].res # "item"
@@ -102,6 +103,12 @@ Inv_C02 == (AtEnd /\ Strict(cfg) /\ cfg.buffered = {} /\ cfg.eofClose /\ StartsA
    IN \/ /\ fl.res = "ok" /\ P12!FirstNonItem(back).res = "none"
          /\ Len(P12!Items(back)) = Len(its) /\ \A i \in 1..Len(its) : P12!KidSame(P12!Items(back)[i], its[i])
       \/ (PrintT(<<"C02 fixpoint fails", inp, out, fl.res, back>>) /\ FALSE)
+\* C17 (design level): the buffer only ever grows for a payload that passed every header check, and never
+\* beyond max(limit, initial capacity); the model's results carry no allocation, so peak = 0 and cap = Capacity
+CapBound == cfg.hasMax => Capacity(cfg.cap0, r) <= Max(WToNat(cfg.max), Max(cfg.cap0, 16))
+RECURSIVE Fold17(_, _)
+Fold17(m, i) == IF i > Len(out) THEN m ELSE Fold17(P17!Step(S3, inp, cfg, m, out[i] @@ [peak |-> 0]), i + 1)
+Inv_C17 == CapBound /\ (AtEnd => Show(Fold17(P17!M0, 1)))
 \* every terminal behaviour, for replay into the real iterator (MC_Reader_Gen configurations)
 Kinds == [i \in 1..Len(out) |-> IF out[i].res = "item" THEN out[i].kind ELSE IF out[i].res = "err" THEN out[i].ekind ELSE "none"]
 Emit == AtEnd => PrintT(ToString(<<"REPLAY", inp, cfg.allowId, cfg.allowHier, cfg.allowSize, cfg.eofClose, cfg.buffered, Kinds>>))
